@@ -1132,11 +1132,19 @@ pub fn o_replies(plan: &Plan, out: &Outcome, vs: &mut Vec<Violation>) {
 /// did the shim's finish_error for this (recovering) command report success?
 pub fn recover_succeeded(out: &Outcome, m: &CmdModel) -> bool {
     match m.act_index {
-        Some(ai) => out
-            .w
-            .api
-            .iter()
-            .any(|a| a.act as usize == ai && a.call == "finish_error" && a.ok),
+        Some(ai) => {
+            let recs: Vec<_> = out.w.api.iter().filter(|a| a.act as usize == ai).collect();
+            if recs.iter().any(|a| a.call == "finish_error") {
+                recs.iter().any(|a| a.call == "finish_error" && a.ok)
+            } else {
+                // carry-on recovery: exactly the refused row failed, everything after it
+                // (further rows, the closing call) reported success
+                recs.iter().filter(|a| !a.ok).count() == 1
+                    && !matches!(out.end, RunEnd::Panic { .. })
+                    && out.w.act_next > ai
+                    && matches!(recs.last(), Some(a) if a.ok && a.call != "write_row" && a.call != "start")
+            }
+        }
         None => false,
     }
 }
